@@ -132,24 +132,39 @@ DIRECT_FNS = {
 _TWINS = []      # symbolic-class twins of real objects share the C structs: never collected, so no destructor runs twice
 
 
-def make_direct(W, n0=1, n1=1, padding=0, prune=True):
+def _atco(W, lmax):
+    """the interpolator's basis: l = 0..lmax on both atoms (lmax 1: the basis of the fill_l1 harness)"""
+    if lmax == 1:
+        return W["atco_l1"]
+    key = "atco_l%d" % lmax
+    if key not in W:
+        lc = W["lc"]
+        etb = [[(0, 2, 0.5, 2.0), (1, 1, 0.7, 2.0), (2, 1, 0.9, 2.0)], [(0, 1, 0.9, 2.0), (1, 1, 0.8, 2.0), (2, 1, 1.1, 2.0)]]
+        W[key] = lc.ATCBasis(*lc.get_gamma_lists_from_etb_list(etb))
+    return W[key]
+
+
+def make_direct(W, n0=1, n1=1, padding=0, prune=True, lmax=1):
     """a hand-made two-atom atomic grid (4 radial shells, 8 points) wired exactly like PySCFNLDFInitializer does it:
     AtomicGridsIndexer(...).set_weights/set_idx/set_padding, LCAOInterpolatorDirect(indexer, ...).set_coords(sorted coordinates)"""
-    key = "grid_direct_%d_%d_%d_%d" % (n0, n1, padding, prune)
+    key = "grid_direct_%d_%d_%d_%d_%d" % (n0, n1, padding, prune, lmax)
     if key in W:
         return W[key]
     import ciderpress.dft.grids_indexer as gim
     li = W["li"]
     atom_coords = np.array([[0.0, 0.0, 0.0], [0.0, 0.0, 1.4]])
     dirs = np.array([[1.0, 0.0, 0.0], [0.0, 1.0, 0.0], [0.0, 0.0, 1.0], [0.6, 0.0, 0.8], [0.0, -0.6, 0.8], [-0.48, 0.6, 0.64]])
-    s, y00 = np.sqrt(3 / (4 * np.pi)), 1 / np.sqrt(4 * np.pi)
-    ylm = np.ascontiguousarray(np.stack([np.full(len(dirs), y00), s * dirs[:, 1], s * dirs[:, 2], s * dirs[:, 0]], axis=1))
+    # the angular table comes from the library's own real spherical harmonics (sph_harm.c), as in the PySCF interface
+    nlm = (lmax + 1) ** 2
+    ylm = np.zeros((len(dirs), nlm))
+    W["lc"].libcider.recursive_sph_harm_vec(ctypes.c_int(nlm), ctypes.c_int(len(dirs)), np.ascontiguousarray(dirs).ctypes.data_as(ctypes.c_void_p),
+                                            ylm.ctypes.data_as(ctypes.c_void_p))
     rad_arr = np.ascontiguousarray(np.array([0.25, 0.8, 0.35, 1.0]))
     ar_loc = np.array([0, 0, 1, 1], dtype=np.int32)
     ra_loc = np.array([0, 2, 4], dtype=np.int32)
     rad_loc = np.array([0, 2, 5, 6, 8], dtype=np.int32)
     ylm_loc = np.array([0, 2, 5, 0], dtype=np.int32)
-    gi = gim.AtomicGridsIndexer(2, 1, rad_arr, ar_loc, ra_loc, rad_loc, ylm, ylm_loc)
+    gi = gim.AtomicGridsIndexer(2, lmax, rad_arr, ar_loc, ra_loc, rad_loc, ylm, ylm_loc)
     all_coords = []
     for r in range(4):
         for k in range(rad_loc[r + 1] - rad_loc[r]):
@@ -159,7 +174,7 @@ def make_direct(W, n0=1, n1=1, padding=0, prune=True):
     idx = np.array([3, 0, 6, 1, 7, 2, 5] + ([] if prune else [4]), dtype=np.int64)
     gi.set_idx(idx)
     gi.set_padding(padding)
-    ip = li.LCAOInterpolatorDirect(gi, atom_coords, W["atco_l1"], n0, n1, aparam=0.5, dparam=0.4, nrad=6, onsite_direct=True)
+    ip = li.LCAOInterpolatorDirect(gi, atom_coords, _atco(W, lmax), n0, n1, aparam=0.5, dparam=0.4, nrad=6, onsite_direct=True)
     coords = np.ascontiguousarray(np.concatenate([all_coords[idx], np.zeros((padding, 3))], axis=0))
     ip.set_coords(coords)
     W[key] = ip
@@ -185,8 +200,8 @@ def _twin(symcls, real):
     return o
 
 
-def h_direct(env, W, stats, dot, n0=1, n1=1, padding=0, prune=True):
-    ipr = make_direct(W, n0, n1, padding, prune)
+def h_direct(env, W, stats, dot, n0=1, n1=1, padding=0, prune=True, lmax=1):
+    ipr = make_direct(W, n0, n1, padding, prune, lmax)
     nao, ng, ngpp = ipr.atco.nao, ipr.all_coords.shape[0], ipr.all_coords.shape[0] + padding
     x = env.arr("x", (nao, ipr.num_in), lo="-2", hi="2")
     y = env.arr("y", (ngpp, ipr.num_out), lo="-2", hi="2")
